@@ -591,10 +591,15 @@ def main():
 
         # ---- interpretation
         known, fixed = load_known()
-        violations, known_hits, broken, inconcl = [], [], [], []
+        violations, known_hits, broken, inconcl, warnings = [], [], [], [], []
         os.makedirs(os.path.join(VERIF, "replays", prop), exist_ok=True)
         for h, r in zip(sel, results):
             v = r["verdict"]
+            if h["kind"] == "model":
+                # validity check of a contract model against the real code below it
+                if v != "SUCCESS":
+                    broken.append("model validity harness %s: %s %s" % (r["name"], v, r.get("failed_desc") or r.get("detail") or ""))
+                continue
             if h["kind"] == "twin":
                 # vacuity twin: must FAIL, otherwise the family proves nothing
                 if v != "FAILURE":
@@ -623,6 +628,12 @@ def main():
                 if h.get("replay") == "none":
                     reproduced = True   # harness compares against a model only; documented per harness
                     r["replay"]["note"] = "not natively replayable (stubbed environment); reported on the solver's verdict"
+                if not reproduced and h.get("replay") == "optional":
+                    # harness over an over-approximating contract model: a counterexample that needs a
+                    # model behaviour the real lower level never shows is not a violation of the real system
+                    r["contract_warning"] = "counterexample depends on a contract-model choice the real code below does not make; not reported"
+                    warnings.append(r["name"])
+                    continue
                 if not reproduced:
                     broken.append("counterexample of %s does not reproduce natively: %s" % (r["name"], r["replay"]))
                     continue
